@@ -234,6 +234,7 @@ class Engine:
         self.cur_ins = None
         self.explore = False
         self.pp_max = 4
+        self.explore_loads = False
         self.time_slice = 400
         self.cur_tid = 1
         self.models = MODELS
@@ -1261,7 +1262,7 @@ def _step(self, st):
         self.do_call(st, fr, ins)
         return
     if st.threads is not None and (op in ("atomicrmw", "cmpxchg", "fence") or (op in ("load", "store") and (A.get("atomic") or A.get("volatile")))):
-        self.sync_point(st, is_load=(op == "load"))
+        self.sync_point(st, is_load=(("atomic" if A.get("atomic") else True) if op == "load" else False))
     if op in ("add", "sub", "mul", "udiv", "sdiv", "urem", "srem", "shl", "lshr", "ashr", "and", "or", "xor"):
         a, b = V(0), V(1)
         t = self.m.resolve(ins.ty)
@@ -1687,7 +1688,7 @@ def _sync_point(self, st, voluntary=False, is_load=False):
         me["skip"] = True
         self.switch_to(st, order[0])
         raise Resched()
-    if self.explore and st.preempt_left > 0 and not is_load:
+    if self.explore and st.preempt_left > 0 and (not is_load or (is_load == "atomic" and self.explore_loads)):
         # each program location serves as a preemption point at most PP_MAX times per path (idle loops would otherwise dominate)
         fr0 = st.frames[-1]
         key = (fr0.fn.name, fr0.block.name, fr0.ip)
@@ -2480,8 +2481,10 @@ def _me(st):
 @model("vp_sched")
 def m_sched(eng, st, ins, name, args):
     """vp_sched(p): from here on explore schedules with at most p preemptions (switches at blocking points are free)"""
-    st.preempt_left = _conc(eng, st, args[0], "vp_sched")
+    v = _conc(eng, st, args[0], "vp_sched")
+    st.preempt_left = v & 0xff
     eng.explore = True
+    eng.explore_loads = bool(v & 0x100)     # VP_SCHED_LOADS: atomic loads are preemption points as well
     return None
 
 
